@@ -758,3 +758,87 @@ theorem leaf_mput (ds : DblSem) {h vars e g c} (rd : Nat → Cell) (hd : Held h 
     exact ⟨st.inv, st.val.trans hv, st.ok, st.frame, st.next_le, st.next_ge, st.live⟩
 
 end Nstd.Variant.Deep
+
+namespace Nstd.Variant.Deep
+open Nstd.Variant
+
+/-! ### typed assignment of a String -/
+
+theorem setPay_next' (h : Heap) (b : Nat) (p : Pay) : (setPay h b p).next = h.next := by
+  unfold setPay; split <;> rfl
+
+theorem leaf_setStr {h vars e g c} (hd : Held h vars e g c) (t : Str) (f : Nat) (hf : liveCount h + 2 < f) :
+    ∃ h' c' g', setBoxedCell f h c (.str t) = some (h', c') ∧ CellStep h vars e g c (.str t) 2 h' c' g' := by
+  have i := hd.inv
+  have hty := cellType_abs hd
+  by_cases hc : cellType h c ≠ (Pay.str t).type ∨ cellRef h c > 1
+  · -- new block
+    obtain ⟨h1, r1, i1, s1⟩ := dinv_release f h e c i hd.pend (by omega)
+    have i2 := dinv_alloc i1 (.str t) (by intro d hdm; simp [Pay.cells] at hdm) (by intro x; simp [Pay.cells, cntCells_nil])
+    refine ⟨(alloc h1 (.str t)).1, .ptr h1.next, upd g h1.next (.str t), ?_, i2.congr ?_, by simp [absCell],
+      (by intro z hz; cases hz), ?_, ?_, ?_, ?_⟩
+    · simp only [setBoxedCell, hc, if_true, r1, copyPay, alloc_id]
+    · intro x
+      simp only [Pay.cells, cntCells_nil, cellCnt_ptr]
+      by_cases ex : x = h1.next
+      · subst ex; simp
+      · have : ¬ h1.next = x := fun y => ex y.symm
+        simp [ex, this]
+    · intro x hx _
+      have : x ≠ h1.next := by rw [s1.next]; have := lt_next_of_ne i x hx; omega
+      exact upd_other _ _ _ _ this
+    · rw [alloc_next, s1.next]; omega
+    · rw [alloc_next, s1.next]; omega
+    · rw [liveCount_alloc i1]; have := s1.live; omega
+  · -- in place
+    have ht : cellType h c = 10 := by
+      by_cases e1 : cellType h c = (Pay.str t).type
+      · exact e1
+      · exact absurd (Or.inl e1) hc
+    have hr : ¬ cellRef h c > 1 := fun r => hc (Or.inr r)
+    cases c with
+    | null => simp [cellType] at ht
+    | inl y =>
+      have := type_lt_of_not_boxed y (hd.ok y rfl)
+      simp [cellType] at ht; omega
+    | ptr b =>
+      obtain ⟨blk, hb⟩ := hd.cellOk.2 b rfl
+      have hpos := i.pos b blk hb
+      have href : blk.ref = 1 := by simp [cellRef, hb] at hr; omega
+      have hcnt := i.cnt b blk hb
+      have hpe := hd.pend b
+      simp [cellCnt_ptr] at hpe
+      have hpay : ∃ u, blk.pay = .str u := by
+        simp only [cellType, hb] at ht
+        cases hp : blk.pay <;> rw [hp] at ht <;> simp [Pay.type] at ht
+        exact ⟨_, rfl⟩
+      obtain ⟨u, hpay⟩ := hpay
+      have i3 := dinv_setPay i b blk hb (by omega) (by omega) (.str t) (by intro d hdm; simp [Pay.cells] at hdm)
+        (by intro x; simp [Pay.cells, cntCells_nil]) rfl
+      refine ⟨setPay h b (.str t), .ptr b, upd g b (.str t), ?_, i3.congr ?_, by simp [absCell],
+        (by intro z hz; cases hz), ?_, ?_, ?_, ?_⟩
+      · simp only [setBoxedCell, hc, if_false, hb, copyPay, hpay, Pay.cells, releaseAll, List.foldlM_nil]
+        rfl
+      · intro x
+        have := hd.pend x
+        simp only [hpay, Pay.cells, cntCells_nil, cellCnt_ptr] at this ⊢
+        omega
+      · intro x hx hprot
+        have : x ≠ b := by
+          intro exb; subst exb
+          simp only [cellCnt_ptr, if_true] at hprot
+          rcases hprot with hp | hp <;> omega
+        exact upd_other _ _ _ _ this
+      · rw [setPay_next']; omega
+      · rw [setPay_next']; omega
+      · have : liveCount (setPay h b (.str t)) = liveCount h := by
+          apply liveCount_sameLive
+          refine ⟨setPay_next' _ _ _, ?_⟩
+          intro x
+          simp only [setPay, hb]
+          by_cases ex : x = b
+          · subst ex; simp [hb]
+          · simp [upd_other _ _ _ _ ex]
+        omega
+
+end Nstd.Variant.Deep
